@@ -43,7 +43,33 @@ fn blindings() -> Vec<Blind> {
   let lm1 = (Scalar::ZERO - Scalar::ONE).to_bytes();
   let mut p252 = [0u8; 32];
   p252[31] = 0x10;
-  vec![Blind::Craft("1", one), Blind::Fresh(0), Blind::Fresh(1), Blind::Fresh(2), Blind::Craft("2", two), Blind::Craft("l-1", lm1), Blind::Craft("2^252", p252)]
+  // scalars with structure: a single bit at a 64-bit word boundary, repeated bytes, the low half zero
+  let bit = |k: usize| {
+    let mut b = [0u8; 32];
+    b[k / 8] = 1 << (k % 8);
+    b
+  };
+  let mut rep = [1u8; 32];
+  rep[31] = 0x01;
+  let mut hi = [0u8; 32];
+  for b in hi.iter_mut().skip(16) {
+    *b = 0xff;
+  }
+  hi[31] = 0x0f;
+  vec![
+    Blind::Craft("1", one),
+    Blind::Fresh(0),
+    Blind::Fresh(1),
+    Blind::Fresh(2),
+    Blind::Craft("2", two),
+    Blind::Craft("l-1", lm1),
+    Blind::Craft("2^252", p252),
+    Blind::Craft("2^64", bit(64)),
+    Blind::Craft("2^128", bit(128)),
+    Blind::Craft("2^192", bit(192)),
+    Blind::Craft("0x01 repeated", rep),
+    Blind::Craft("2^252 - 2^128 (low half zero)", hi),
+  ]
 }
 
 /// one full client/server exchange with a scripted blinding; returns (blinded, unblinded, finalised)
@@ -342,6 +368,53 @@ fn run_sparse_keys(cx: &mut CaseCx, case: &Value) {
   cx.outcome("sparse keys stable");
 }
 
+
+/// Server::eval is a function of (point, tag) alone: for every ordered pair of requests from a family that
+/// contains chained points (an earlier OUTPUT sent back as a request), special points and repeated points, the
+/// answer to the second request equals the answer it gets on a fresh clone.
+fn run_evaluation_order(cx: &mut CaseCx, _case: &Value) {
+  cx.entropy(970);
+  let tags = [0u8, 1, 255];
+  let server = pp::Server::new(tags.to_vec()).expect("server");
+  let p0 = pp::Client::blind(b"chain start").0;
+  let mut points: Vec<(String, pp::Point)> = vec![("a client request".into(), p0.clone()), ("another client request".into(), pp::Client::blind(b"other").0)];
+  // chains: the output for (p0, tag 1) sent back, and the output of that
+  if let Ok(e1) = server.eval(&p0, 1, false) {
+    points.push(("the earlier output for (request, tag 1) sent back as a request".into(), e1.output.clone()));
+    if let Ok(e2) = server.eval(&e1.output, 1, false) {
+      points.push(("the output of the output".into(), e2.output.clone()));
+    }
+    if let Ok(e3) = server.eval(&e1.output, 0, false) {
+      points.push(("the output sent back under another tag".into(), e3.output.clone()));
+    }
+  }
+  points.push(("the neutral element".into(), pp::Point::from(&[0u8; 32][..])));
+  let items: Vec<(usize, u8)> = (0..points.len()).flat_map(|i| tags.iter().map(move |&t| (i, t))).collect();
+  let answer = |s: &pp::Server, it: &(usize, u8), verifiable: bool| -> Option<[u8; 32]> { guard(|| s.eval(&points[it.0].1, it.1, verifiable).ok().map(|e| *e.output.as_bytes())).ok().flatten() };
+  let baseline: Vec<Option<[u8; 32]>> = items.iter().map(|it| answer(&server.clone(), it, false)).collect();
+  if baseline.iter().filter(|b| b.is_some()).count() < items.len() - 3 {
+    cx.viol("C12/exchange-failed", "a fresh server refuses requests of the family", json!({}));
+    return;
+  }
+  for (a, ia) in items.iter().enumerate() {
+    for (b, ib) in items.iter().enumerate() {
+      for verifiable in [false, true] {
+        let s = server.clone();
+        let _ = answer(&s, ia, verifiable);
+        let got = answer(&s, ib, false);
+        cx.eval();
+        cx.nontrivial(fnv_str(&format!("{}|{}|{}", a, b, verifiable)));
+        if got != baseline[b] {
+          cx.viol("C12/output-depends-on-earlier-request", format!("the answer for ({}, tag {}) differs when the server answered ({}, tag {}{}) just before", points[ib.0].0, ib.1, points[ia.0].0, ia.1, if verifiable { ", with proof" } else { "" }), json!({"first": [points[ia.0].0, ia.1], "second": [points[ib.0].0, ib.1], "first_verifiable": verifiable}));
+          return;
+        }
+        cx.count("ordered_pairs", 1);
+      }
+    }
+  }
+  cx.outcome("evaluation is a function of (point, tag)");
+}
+
 /// unbounded repetitions (bounded here: 300) of one request on one thread stay fresh
 fn run_freshness(cx: &mut CaseCx, _case: &Value) {
   cx.entropy(950);
@@ -472,7 +545,7 @@ pub fn spec() -> PropSpec {
     checks: vec![
       Check {
         name: "exchanges",
-        rule: "per server (tag lists [0,1,7,255], [7,3] unsorted, [1,1,2] with a repeat, [255,128,0], [9]; thorough: 3 keys each): every registered tag x 14 inputs (empty, 1 byte, 64 B, 4 KiB, pairs sharing a 39-byte / 4095-byte prefix requested back-to-back in both orders) x 7 blindings (crafted 1, 2, l-1, 2^252; 3 fresh) x {verifiable, not; the non-verifiable requests carry the blinding factor through its public scalar/byte conversions before unblinding}: unblinded == server's evaluation of the input point == (k+PRF(tag))^-1 H(input); finalised output equal across all requests; injective over (tag, input); requests fresh and != input point; distinct = exchanges",
+        rule: "per server (tag lists [0,1,7,255], [7,3] unsorted, [1,1,2] with a repeat, [255,128,0], [9]; thorough: 3 keys each): every registered tag x 14 inputs (empty, 1 byte, 64 B, 4 KiB, pairs sharing a 39-byte / 4095-byte prefix requested back-to-back in both orders) x 12 blindings (crafted 1, 2, l-1, 2^252, 2^64, 2^128, 2^192, 0x01 repeated, 2^252-2^128; 3 fresh) x {verifiable, not; the non-verifiable requests carry the blinding factor through its public scalar/byte conversions before unblinding}: unblinded == server's evaluation of the input point == (k+PRF(tag))^-1 H(input); finalised output equal across all requests; injective over (tag, input); requests fresh and != input point; distinct = exchanges",
         gen: |tier| {
           let mut v = vec![];
           for t in 0..tag_lists().len() {
@@ -499,6 +572,7 @@ pub fn spec() -> PropSpec {
         run: run_sparse_keys,
         min_counts: &[("stable_outputs", 1500)],
       },
+      Check { name: "evaluation-order", rule: "requests = 6 points (two client requests, an earlier OUTPUT sent back as a request, the output of that, the output under another tag, the neutral element) x 3 tags: for EVERY ordered pair of requests (first with and without proof) the second answer equals the one a fresh clone gives (no memo keyed on too little, no state left by a request)", gen: |_| vec![json!({})], run: run_evaluation_order, min_counts: &[("ordered_pairs", 500)] },
       Check { name: "repeated-requests", rule: "300 consecutive requests for two alternating inputs on one thread under fresh entropy: all blinded points pairwise distinct", gen: |_| vec![json!({})], run: run_freshness, min_counts: &[("fresh_requests", 300)] },
       Check {
         name: "finalize-sensitivity",
